@@ -170,6 +170,16 @@ def run(tier, seed, replay=None):
         ('user_item_named_like_helper', True, world + 'pub struct _K0; pub trait _K1 {}\ndisjoint_impls! {\n%s}\nfn main() { let _ = _K0; }\n' % inv0),
         ('default_method_usable_outside', True, world + 'disjoint_impls! {\n%s}\npub struct Local;\nimpl K for Local { const NAME: &\'static str = "local"; }\nfn main() { assert_eq!(<Local as K>::f(), "default"); assert_eq!(<Local as K>::ID, 0); }\n' % inv0),
         ('trait_only_invocation', True, world + 'disjoint_impls! {\n%s}\npub struct Local;\nimpl K for Local { const NAME: &\'static str = "local"; }\nfn main() { assert_eq!(<Local as K>::f(), "default"); }\n' % TRAITS[0]),
+        # one invocation over two equally named local types of sibling modules (and, in trait mode, two
+        # self types that differ only in the module): both families must exist and keep their own items
+        ('same_name_in_sibling_modules_inherent', True, gp.PRELUDE + 'impl D for X0 { type G = GA; }\nimpl D for X1 { type G = GB; }\npub mod a { pub struct W<T>(pub T); }\npub mod b { pub struct W<T>(pub T); }\n'
+         'disjoint_impls! {\n    impl<T: D<G = GA>> a::W<T> { pub const NAME: &\'static str = "a-A"; }\n    impl<T: D<G = GB>> a::W<T> { pub const NAME: &\'static str = "a-B"; }\n'
+         '    impl<T: D<G = GA>> b::W<T> { pub const NAME: &\'static str = "b-A"; }\n    impl<T: D<G = GB>> b::W<T> { pub const NAME: &\'static str = "b-B"; }\n}\n'
+         'fn main() { assert_eq!(<a::W<X0>>::NAME, "a-A"); assert_eq!(<a::W<X1>>::NAME, "a-B"); assert_eq!(<b::W<X0>>::NAME, "b-A"); assert_eq!(<b::W<X1>>::NAME, "b-B"); }\n'),
+        ('same_name_in_sibling_modules_trait', True, gp.PRELUDE + 'impl D for X0 { type G = GA; }\nimpl D for X1 { type G = GB; }\npub mod a { pub struct W<T>(pub T); }\npub mod b { pub struct W<T>(pub T); }\n'
+         'disjoint_impls! {\n    pub trait K { const NAME: &\'static str; }\n    impl<T: D<G = GA>> K for a::W<T> { const NAME: &\'static str = "a-A"; }\n    impl<T: D<G = GB>> K for a::W<T> { const NAME: &\'static str = "a-B"; }\n'
+         '    impl<T: D<G = GA>> K for b::W<T> { const NAME: &\'static str = "b-A"; }\n    impl<T: D<G = GB>> K for b::W<T> { const NAME: &\'static str = "b-B"; }\n}\n'
+         'fn main() { assert_eq!(<a::W<X0> as K>::NAME, "a-A"); assert_eq!(<a::W<X1> as K>::NAME, "a-B"); assert_eq!(<b::W<X0> as K>::NAME, "b-A"); assert_eq!(<b::W<X1> as K>::NAME, "b-B"); }\n'),
     ]
     res = rc.compile_many([p for _, _, p in progs])
     stats['resolution_programs'] = len(progs)
